@@ -255,8 +255,8 @@ M.append(dict(kind="fire", pid="C02", file=B, old="        arg |= b[i + 1]\n    
               more=[("            first_offset = i - ((n_args - 1) * 2)\n", "            arg |= b[i + 1]\n            first_offset = i - ((n_args - 1) * 2)\n")], why="one-prefix case right, two prefixes wrong (R02.8)"))
 silent(["C02", "C09", "C13", "C03"], B, "        arg |= b[i + 1]\n        n_args += 1\n        if opcode == dis.EXTENDED_ARG:\n            arg = arg << 8\n",
        "        arg = arg | b[i + 1]\n        n_args += 1\n        if opcode == dis.EXTENDED_ARG:\n            arg = arg * 256\n", "same accumulation spelled with * 256")
-fire("C02", "code_data/_constants.py", "    if isinstance(value, (str, type(None), bytes, type(...))):", "    if isinstance(value, (str, type(None), bytes)):", "Ellipsis constants have no key: from_code raises (R02.K)")
-silent(["C02", "C08"], "code_data/_constants.py", "    if isinstance(value, (bool, int)):\n        return (type(value), value)", "    tp = type(value)\n    if tp in (bool, int):\n        return (tp, value)", "exact-type dispatch, same key")
+fire("C02", "code_data/_constants.py", "    if isinstance(value, (str, type(None), type(...))):", "    if isinstance(value, (str, type(None))):", "Ellipsis constants have no key: from_code raises (R02.K)")
+silent(["C02", "C08"], "code_data/_constants.py", "    if isinstance(value, (bool, int, bytes)):\n        return (type(value), value)", "    tp = type(value)\n    if tp in (bool, int, bytes):\n        return (tp, value)", "exact-type dispatch, same key")
 fire("C08", I, "        if not isinstance(__o, Constant):\n            return False\n", "        if not isinstance(__o, Constant):\n            return False\n        if self.constant is __o.constant:\n            return True\n", "shortcut skips the override (R08.2)")
 silent(["C08", "C14"], I, "        if not isinstance(__o, Constant):\n            return False\n", "        if self is __o:\n            return True\n        if not isinstance(__o, Constant):\n            return False\n", "identity shortcut on the whole value")
 fire("C14", I, "        if self._index_override != __o._index_override:", "        if self._index_override is not __o._index_override:", "identity of ints in __eq__ (R14.T / R08.2)")
@@ -285,3 +285,10 @@ silent(["C12", "C03"], "code_data/_constants.py", "        return frozenset(map(
 fire("C11", B, "            n_args_override = n_args if n_args != _instrsize(arg) else None\n", "            n_args_override = None\n", "the original defect: redundant prefixes of non-jumps forgotten (R11.W)")
 fire("C09", B, "            n_args_override = n_args if n_args != _instrsize(arg) else None\n", "            n_args_override = None\n", "same, under C09 (R09.W)")
 silent(["C11", "C09", "C01"], B, "            n_args_override = n_args if n_args != _instrsize(arg) else None\n", "            n_args_override = None if n_args == _instrsize(arg) else n_args\n", "same width rule, other way round")
+fire("C13", B, "    if invalid_targets:\n", "    if False and invalid_targets:\n", "the original defect: jumps into the middle of an instruction accepted (R13.6)")
+fire("C13", B, "    invalid_targets = targets_set - instruction_offsets - {0}\n", "    invalid_targets = targets_set - instruction_offsets - {0} - {len(b)}\n", "a jump past the last instruction accepted (R13.6)")
+silent(["C13", "C02", "C01"], B, "    invalid_targets = targets_set - instruction_offsets - {0}\n", "    invalid_targets = {t for t in targets_set if t and t not in instruction_offsets}\n", "same test as a comprehension")
+fire("C08", "code_data/_constants.py", "    if isinstance(value, (str, type(None), type(...))):\n        return value\n", "    if isinstance(value, (str, type(None), type(...), bytes)):\n        return value\n", "the original defect: bytes are their own key (R08.4, python -bb)")
+silent(["C08", "C02", "C03"], "code_data/_constants.py", "    if isinstance(value, (bool, int, bytes)):\n        return (type(value), value)\n", "    if isinstance(value, (bool, int)):\n        return (type(value), value)\n    if isinstance(value, bytes):\n        return (bytes, value)\n", "bytes tagged in an arm of their own")
+fire("C07", J, "    if \"int\" in value:\n        return int(value[\"int\"])\n    if \"target\" in value:", "    if \"target\" in value:", "the original defect: a big operand written as {int} is not read back (R07.2)")
+fire("C07", J, "        return NoArg(**{**value, \"_arg\": cast(int, arg_from_json(value[\"_arg\"]))})", "        return NoArg(**value)", "same for NoArg._arg (R07.2)")
